@@ -202,10 +202,10 @@ def c01(tier, replay=None):
                  ("cif1-single", 1, CIF1_VIDS, ["bare", "sq", "dq", "text"], ALLSEPS[:-1], CTX1, ["eof", "eol", "cmt"], 1)]
     else:
         plans = [("cif2-single", 2, allv, ALLPRES, ALLSEPS, CTX2, TAILS, 1),
-                 ("cif2-pairs", 2, allv, ALLPRES, ["sp", "eol", "cmt", "none"], ["scalars", "loop1", "list", "table"], ["eof"], 2),
-                 ("cif2-triples", 2, ["word", "unk", "apos", "semi", "ml", "bslend", "u4", "empty"], ["bare", "sq", "tdq", "text", "textpf"], ["sp", "eol", "none"], ["loop1", "list", "table"], ["eof", "cmt"], 3),
+                 ("cif2-pairs", 2, ["word", "unk", "apos", "semi", "ml", "mlsemi", "bslend", "u4", "empty", "colonend", "num", "mlqq", "mlaa", "tq12", "nlend", "both"], ALLPRES, ["sp", "eol", "cmt", "none"], ["scalars", "loop1", "list", "table"], ["eof"], 2),
+                 ("cif2-triples", 2, ["word", "apos", "semi", "ml", "empty"], ["bare", "sq", "tdq", "text"], ["sp", "eol"], ["loop1", "list"], ["eof"], 3),
                  ("cif1-single", 1, CIF1_VIDS, ["bare", "sq", "dq", "text"], ALLSEPS[:-1], CTX1, TAILS, 1),
-                 ("cif1-pairs", 1, CIF1_VIDS, ["bare", "sq", "dq", "text"], ["sp", "eol", "cmt"], CTX1, ["eof"], 2)]
+                 ("cif1-pairs", 1, [v for v in ("word", "unk", "apos", "semi", "ml", "mlsemi", "bslend", "empty", "num", "quot", "both", "data", "hash", "dollar", "obr", "under", "nlend", "lead", "trail", "mlq1") if v in CIF1_VIDS], ["bare", "sq", "dq", "text"], ["sp", "eol", "cmt"], CTX1, ["eof"], 2)]
     covs = []
     tstates = ttrans = total = total_ok = 0
     for name, dialect, vids, pres, seps, ctxs, tails, ns in plans:
@@ -218,9 +218,10 @@ def c01(tier, replay=None):
         for tag, o in iter_tlc_json(out, ("DOC",)):
             docs.append(o)
         cleanup(wd)
-        if tier == "quick" and len(docs) > 6000:
+        cap = 6000 if tier == "quick" else 100000
+        if len(docs) > cap:
             rnd.shuffle(docs)
-            docs = docs[:6000]
+            docs = docs[:cap]
         # terminator style per document: LF mostly; the other styles are C08's subject but a share is exercised here
         jobs = []
         for i, o in enumerate(docs):
